@@ -101,6 +101,34 @@ Theorem C02_outcome_quote_in_honest_range : forall h cf seq prev (taos : list (o
 Proof. exact OutcomeAggRange.outcome_quote_in_honest_range. Qed.
 Print Assumptions C02_outcome_quote_in_honest_range.
 
+(* timestamped median at the level of Plugin.Outcome: the value held is the previous outcome's (kept) or fresh and then in
+   the correct observers' range, value and observed-at time *)
+Theorem C02_outcome_tsv_median_in_honest_range : forall h cf seq prev (taos : list (option Outcome.observation * bool)) next sid t d,
+  1 < seq -> Outcome.outcome_step h cf seq prev (map fst taos) = Ok next ->
+  base.lookup (sid, 1) (Outcome.o_aggs next) = Some (STsv t (SDec d)) ->
+  honest_tsv (OutcomeAggRange.accepted_vals taos sid) ->
+  (fpres (OutcomeAggRange.accepted_vals taos sid) < hpres (OutcomeAggRange.accepted_vals taos sid))%nat ->
+  base.lookup (sid, 1) (Outcome.o_aggs prev) = Some (STsv t (SDec d)) \/
+  exists tl th dl dh t1 d1 t2 d2,
+    In (Some (STsv tl d1), true) (OutcomeAggRange.accepted_vals taos sid) /\ In (Some (STsv th d2), true) (OutcomeAggRange.accepted_vals taos sid) /\
+    tl <= t <= th /\
+    In (Some (STsv t1 (SDec dl)), true) (OutcomeAggRange.accepted_vals taos sid) /\ In (Some (STsv t2 (SDec dh)), true) (OutcomeAggRange.accepted_vals taos sid) /\
+    dle dl d /\ dle d dh.
+Proof. exact OutcomeAggRange.outcome_tsv_median_in_honest_range. Qed.
+Print Assumptions C02_outcome_tsv_median_in_honest_range.
+
+Definition C02_nv_tsv_taos : list (option Outcome.observation * bool) := map (fun o => (o, true)) NvHistory.a3.
+Example C02_nv_tsv :
+  match Outcome.outcome_step NvHistory.nv_h NvHistory.nv_cf 3 NvHistory.p2 (map fst C02_nv_tsv_taos) with
+  | Ok next => base.lookup (3, 1) (Outcome.o_aggs next) = Some (NvHistory.nv_tsv (11 * NvHistory.s) 100)
+  | _ => False end /\
+  honest_tsv (OutcomeAggRange.accepted_vals C02_nv_tsv_taos 3) /\
+  (fpres (OutcomeAggRange.accepted_vals C02_nv_tsv_taos 3) < hpres (OutcomeAggRange.accepted_vals C02_nv_tsv_taos 3))%nat.
+Proof.
+  split; [vm_compute; reflexivity|]. split; [|vm_compute; lia].
+  intros x H. vm_compute in H. destruct H as [H|[H|[H|[]]]]; inversion H; eexists; eexists; reflexivity.
+Qed.
+
 (* ---- end to end: from the correct nodes' data sources to the outcome ----
    OutcomeEndToEnd: a correct node's observation is ObservationCodec.plugin_observation (the model of Plugin.Observation,
    compared with the real function by the `observe` projection) of its inputs, marshalled by encode_observation in any
